@@ -61,10 +61,10 @@ func lazyCorruptBlob(r *rng.R, kind string, ts time.Time, instName string) []byt
 			t = wire.Tree(s)
 			mutateStruct(t, r)
 			pb := t.Encode()
-			if _, err := snapshot.LoadData(wire.Gzip(pb)); err == nil {
-				if _, err2 := wire.DecodeSnapshot(pb); err2 != nil {
-					return wire.Gzip(pb) // accepted by LoadData, not strictly valid
-				}
+			// wanted: a blob the repository cannot decode completely (LoadData or the iteration of some DBI
+			// fails). A blob that it decodes without any error is a snapshot, however odd its encoding.
+			if out, sig, _ := DecodeAll(wire.Gzip(pb), len(pb)); sig == "" && (!out.ok || out.err != "") {
+				return wire.Gzip(pb)
 			}
 		}
 		kind = "entry-bad-length"
